@@ -2,7 +2,7 @@
 \* replayable "ctrl" cases for the real SpeedLimitTrainSim at toy scale
 SPECIFICATION CSpec
 CONSTANTS
-  Variant = "fixed"
+  Variant = "catchup"
   E = 0
   VPerO = 1
   MaxZ = 3
